@@ -243,6 +243,31 @@ def on_segment(P, Q, X, tol):
     return abs((X[0] - P[0]) * dy - (X[1] - P[1]) * dx) <= tol * L2 ** 0.5 * max(1.0, L2 ** 0.5)
 
 
+class Coo:
+    """sparse matrix as a list of (row, column, value) contributions"""
+
+    def __init__(self, n):
+        self.n, self.r, self.c, self.v = n, [], [], []
+
+    def add(self, i, j, v):
+        self.r.append(i); self.c.append(j); self.v.append(v)
+
+    def dot(self, x):
+        y = np.zeros(self.n, dtype=complex)
+        np.add.at(y, np.array(self.r, dtype=int), np.array(self.v, dtype=complex) * x[np.array(self.c, dtype=int)])
+        return y
+
+    def absdot(self, x):
+        """|K| x with |K| the entry-wise modulus of the ASSEMBLED matrix"""
+        acc = {}
+        for i, j, v in zip(self.r, self.c, self.v):
+            acc[(i, j)] = acc.get((i, j), 0) + v
+        y = np.zeros(self.n)
+        for (i, j), v in acc.items():
+            y[i] += abs(v) * x[j]
+        return y
+
+
 def si_system(p, ans):
     """Textbook P1 Galerkin system of curl(nu curl A) + j w sigma A = J + curl Hc in SI units from
     the problem description and the mesh / circuit lines of the .ans file.
@@ -255,7 +280,7 @@ def si_system(p, ans):
     XY = np.array([(n[0], n[1]) for n in ans["nodes"]])
     X = XY * um
     A = np.array([n[2] for n in ans["nodes"]], dtype=complex)
-    K = np.zeros((nn, nn), dtype=complex)
+    K = Coo(nn)
     f = np.zeros(nn, dtype=complex)
     elcur = []
     for e in ans["elems"]:
@@ -278,12 +303,14 @@ def si_system(p, ans):
         # source current density: block J plus what the written per-label circuit line says
         flag, val = ans["labels"][lbl]
         Jb = complex(b.get("J_re", 0.0), b.get("J_im", 0.0) if harm else 0.0) * 1e6
-        Jc = val * 1e6 if flag == 1 else -val * b.get("sigma", 0.0) * 1e6
+        # (1, J): flat added density J;  (0, dV): voltage gradient, which drives a current -sigma*dV in solid
+        # conductors only — wound regions carry no bulk conduction current (fpproc.cpp:3630 reads the file this way)
+        Jc = val * 1e6 if flag == 1 else (0.0 if wound else -val * b.get("sigma", 0.0) * 1e6)
         Js = Jb + Jc
         for a_ in range(3):
             f[n[a_]] += Js * area / 3
             for b_ in range(3):
-                K[n[a_], n[b_]] += Ke[a_, b_]
+                K.add(n[a_], n[b_], Ke[a_, b_])
         if not harm and b.get("H_c", 0.0) != 0:
             cx, cy = XY[n].mean(axis=0)
             t = c05_gen.eval_magfctn(lab["magdirfctn"], cx, cy) if lab.get("magdirfctn") else lab.get("magdir", 0.0)
@@ -314,7 +341,7 @@ def si_system(p, ans):
                     c0 = complex(bp.get("c0", 0.0), bp.get("c0i", 0.0) if harm else 0.0)
                     c1 = complex(bp.get("c1", 0.0), bp.get("c1i", 0.0) if harm else 0.0)
                     m = c0 * ln / 6
-                    K[n[j], n[j]] += 2 * m; K[n[k], n[k]] += 2 * m; K[n[j], n[k]] += m; K[n[k], n[j]] += m
+                    K.add(n[j], n[j], 2 * m); K.add(n[k], n[k], 2 * m); K.add(n[j], n[k], m); K.add(n[k], n[j], m)
                     f[n[j]] -= c1 * ln / 2; f[n[k]] -= c1 * ln / 2
     # point properties
     for q in p["points"]:
@@ -328,7 +355,7 @@ def si_system(p, ans):
                 presc.setdefault(i, []).append(complex(pp.get("A_re", 0.0), pp.get("A_im", 0.0) if harm else 0.0))
             else:
                 f[i] += cur if harm else cur.real
-    mag = np.abs(K) @ np.abs(A) + np.abs(f)
+    mag = K.absdot(np.abs(A)) + np.abs(f)
     return dict(K=K, f=f, presc=presc, A=A, elcur=elcur, mag=mag, harm=harm, w=w)
 
 
@@ -345,7 +372,7 @@ def oracle(p, ans):
     for i, vals in presc.items():
         if min(abs(A[i] - v) for v in vals) > 1e-6 * max(scaleA, max(abs(v) for v in vals)):
             return ("prescribed A not met at node %d: written %r, prescribed %r" % (i, A[i], vals)), "prescribed-A"
-    r = K @ A - f
+    r = K.dot(A) - f
     tied = {}
     for (i, j, t) in ans["pbcs"]:
         tied[i] = (j, t); tied[j] = (i, t)
@@ -418,9 +445,8 @@ def run_case(ctx, name, p):
         ans = parse_ans(ansf, p["frequency"] != 0)
     except Exception as e:
         return d, None, "the solution file written by fsolver cannot be parsed: %r" % (e,)
-    if d["fail"] or rc != 0 or not d.get("solved") or not d.get("captured"):
-        return d, ans, "solver pipeline failed inside the harness: %s rc=%d solved=%s captured=%s" % (
-            d["fail"], rc, d.get("solved"), d.get("captured"))
+    if d["fail"] or rc != 0 or not d.get("solved"):
+        return d, ans, "solver pipeline failed inside the harness: %s rc=%d solved=%s" % (d["fail"], rc, d.get("solved"))
     return d, ans, None
 
 
@@ -466,15 +492,25 @@ def compare(impl, model):
     return None, tot, nb
 
 
+STRATA = {   # k mod 12 -> forced circuit configuration (static for even k, harmonic for odd k)
+    2: dict(boxes=["coil", "coil"], coil_mode="parallel", coil_sigma=0.0, coil_J=1.0),     # Case 1 with CircInt3 <> 0
+    3: dict(boxes=["coil", "coil"], coil_mode="parallel", coil_sigma=0.0, coil_J=-0.5),
+    4: dict(boxes=["coil", "coil"], coil_mode="parallel", coil_sigma=58.0, coil_J=1.0),    # Case 0 with CircInt3 <> 0
+    5: dict(boxes=["coil", "jblock"], coil_mode="parallel", coil_sigma=10.0, coil_J=0.5),  # Case 2
+    6: dict(boxes=["coil", "coil"], coil_mode="series", coil_sigma=0.0, coil_J=0.5),
+    7: dict(boxes=["coil", "coil"], coil_mode="series", coil_sigma=58.0, coil_J=0.0),
+}
+
+
 def gen(rng, quick, k):
     size = rng.choice([20, 30, 45]) if quick else rng.choice([30, 80, 200])
-    return c05_gen.gen_problem(rng, harmonic=(k % 2 == 1), size_nodes=size)
+    return c05_gen.gen_problem(rng, harmonic=(k % 2 == 1), size_nodes=size, force=STRATA.get(k % 12))
 
 
 def correspond(ctx):
     rng = ctx.rng
-    count = 22 if ctx.quick() else 120
-    limit = 600 if ctx.quick() else 1200
+    count = 24 if ctx.quick() else 96
+    limit = 600 if ctx.quick() else 900
     dis, exprs, cases, feats = [], [], [], {}
     sizes = []
     for k in range(count):
@@ -493,7 +529,7 @@ def correspond(ctx):
         if r:
             ctx.fail("fsolver: " + r[0], problem=p, signature=r[1])
         sizes.append(d["nn"])
-        if d["nn"] <= limit:
+        if d["nn"] <= limit and d.get("captured"):
             exprs.append(to_coq_harmonic(d) if d["harmonic"] else to_coq_static(d))
             cases.append((p, d))
     # the recorded defects of the unchanged solver, each with a fixed signature
@@ -508,7 +544,7 @@ def correspond(ctx):
         r = (r, "harness-vs-binary") if r else oracle(p, ans)
         if r:
             ctx.fail("fsolver: " + r[0], problem=p, signature=sig)
-        if d["nn"] <= limit and not (r and r[1] == "nonfinite"):
+        if d["nn"] <= limit and d.get("captured") and not (r and r[1] == "nonfinite"):
             exprs.append(to_coq_harmonic(d) if d["harmonic"] else to_coq_static(d))
             cases.append((p, d))
     model = vlib.coq_eval(HEADER, exprs, shard=3, timeout=2400) if exprs else []
